@@ -147,7 +147,22 @@ def run_property(prop, tier, rules, explanation, not_decided, technique):
                 continue
             ctx.cur_rule = name
             fn(ctx)
+        lost = []
+        if tier == "thorough" and not os.environ.get("TLSVERIF_NO_WITNESS"):
+            from .witness import replay_witnesses
+            res = replay_witnesses(prop, ctx.index.repo)
+            ctx.info["witnesses"] = res
+            lost = [w for w in res if w["applies"] and not w["fires"]]
+            ctx.note("thorough tier: %d recorded property-breaking changes of seeded/ re-applied to a scratch copy of "
+                     "the current tree; %d apply, %d of those make this check fire" % (
+                         len(res), sum(1 for w in res if w["applies"]),
+                         sum(1 for w in res if w["applies"] and w["fires"])))
         code = finish(ctx, explanation, not_decided, technique, t0, seed, ev_path)
+        if lost and code == 0:
+            for w in lost:
+                print("ANALYSIS-ERROR property=%s witness %s (%s) applies to the current tree but no longer makes "
+                      "the check fire: a rule lost its sensitivity and must be re-confirmed" % (prop, w["seed"], w["title"][:90]))
+            return 2
         return code
     except AnalysisError as e:
         print("ANALYSIS-ERROR property=%s %s" % (prop, e))
